@@ -212,6 +212,9 @@ static bool match_cause(proc *pr, int64_t ret, int want_kind, int want_ref)
     }
     if (best) {
         best->state = CS_DELIVERED;
+        /* cmb_process_resume is "for a yielded process": its signal belongs to a yield, not to whatever the process does next */
+        if (best->kind == CK_RESUME && pr->op != OP_YIELD)
+            viol("C04", "resume-delivered-to-another-wait", "process %d: the signal %" PRId64 " of a resume aimed at its yield was delivered to its %s at t=%g", pr->id, ret, opname[pr->op], now);
         if (best->kind == CK_TIMER) { fired[nfired % MAXFIRED].h = best->handle; fired[nfired % MAXFIRED].t = now; nfired++; }
         if (best->kind == CK_INTR && cmb_event_queue_count() == 0) PROBE("probe.interrupt_with_otherwise_empty_queue");
         if (best->kind == CK_TIMER && cmb_event_queue_count() == 0) PROBE("probe.timer_with_otherwise_empty_queue");
